@@ -653,23 +653,36 @@ def _coding_text(rng, lay, prot, nf=False, stop=None):
     text = utr5 + cds + (stop or rng.choice(['TAA', 'TAG', 'TGA'])) + lay._pad(rng.randint(6, 20))
     return text, len(utr5), len(utr5) + len(cds)
 
-def gen_collision_case(rng, control=False):
-    for _ in range(40):
-        c = _gen_collision_case(rng, control)
+def gen_collision_case(rng, control=False, force=None):
+    for _ in range(80):
+        c = _gen_collision_case(rng, control, force)
         if c is not None:
             return c
     raise RuntimeError('collision generator failed')
 
-def _gen_collision_case(rng, control):
+def _gen_collision_case(rng, control, force=None):
+    force = force or {}
     nseg = rng.randint(4, 6)
     segs = [_mk_seg(rng, rng.randint(7, 11), first=(i == 0), last=(i == nseg - 1 and rng.random() < 0.5)) for i in range(nseg)]
+    xb = None
+    if force.get('exc_motif'):
+        # a trypsin_exception motif on a segment boundary: ...CK|D, ...CK|Y, ...CK|H  (no cut there with the exception)
+        xb = rng.randint(0, nseg - 2)
+        segs[xb] = segs[xb][:-2] + 'CK'
+        segs[xb + 1] = rng.choice('DYH') + segs[xb + 1][1:]
     P = ''.join(segs)
-    k = rng.choice([0, 1, 2, 2])
+    k = force['k'] if 'k' in force else rng.choice([0, 1, 2, 2])
     # ---- targets, one per caller
     def pick(need_f=False):
-        form = rng.choice(['plain', 'metless', 'metless', 'i2l', 'misc', 'metless+i2l'] if k >= 1 else
+        form = rng.choice(force['forms']) if force.get('forms') else \
+               rng.choice(['plain', 'metless', 'metless', 'i2l', 'misc', 'metless+i2l'] if k >= 1 else
                           ['plain', 'metless', 'metless', 'i2l', 'metless+i2l'])
-        if form.startswith('metless'):
+        if form in ('excjoin', 'excleft', 'excjoin+i2l'):
+            i = xb
+            T = segs[xb] + segs[xb + 1] if form.startswith('excjoin') else segs[xb]
+            if xb == 0 and rng.random() < 0.5:
+                T = T[1:]; form = 'metless+' + form
+        elif form.startswith('metless'):
             i, T = 0, segs[0][1:]
         elif form == 'misc':
             i = rng.randint(0, nseg - 2)
@@ -783,9 +796,10 @@ def _gen_collision_case(rng, control):
     w = lay.world()
     if not world_consistent(w):
         return None
-    exc = rng.choice(['auto', 'auto', 'trypsin_exception', 'None'])
-    g = rng.choice([0, 300, 500]) * 10000 + rng.randrange(0, 10000)
-    run = dict(rule='trypsin', exc=exc, k=k, mw4=g, min_mw=g / 10000.0 + 0.00005, min_len=rng.choice([5, 7]), max_len=25,
+    exc = force.get('exc') or rng.choice(['auto', 'auto', 'trypsin_exception', 'None'])
+    g = force['mw4'] if 'mw4' in force else rng.choice([0, 300, 500]) * 10000 + rng.randrange(0, 10000)
+    run = dict(rule='trypsin', exc=exc, k=k, mw4=g, min_mw=g / 10000.0 + 0.00005,
+               min_len=force.get('min_len') or rng.choice([5, 7]), max_len=force.get('max_len') or 25,
                cmds=['variant', 'novel', 'alt'],
                variant_flags=(['--w2f-reassignment'] if rng.random() < 0.3 else []) + (['--coding-novel-orf'] if rng.random() < 0.3 else []),
                novel_flags=['--orf-assignment', rng.choice(['max', 'min'])] + (['--coding-novel-orf'] if rng.random() < 0.6 else []),
@@ -795,6 +809,67 @@ def _gen_collision_case(rng, control):
                                targets={'variant': tv, 'novel': tn, 'alt': ta}),
                 probe=[tv['E'], tn['E']] + ([ta['E']] if ta else []),
                 probe_cmds=['variant', 'novel'] + (['alt'] if ta else []))
+
+
+# ------------------------------------------------------------------ several pools in one --index-dir
+# The three callers run through --index-dir on an index whose canonical pools were created by generateIndex +
+# updateIndex with settings that differ in EXACTLY ONE of (rule, exception, miscleavage, min_mw, min_length,
+# max_length), registered in varied order; every run is judged against the C10 model pool of ITS OWN settings.
+# Worlds are collision worlds whose engineered peptides are canonical under one of the settings and not under the
+# other (longer than the smaller max_length, shorter than the larger min_length, lighter than the larger min_mw,
+# miscleaved beyond the smaller k, joined over / cut at an exception site, products of the other rule; I->L images).
+INDEX_FIELDS = ['rule', 'exception', 'miscleavage', 'min_mw', 'min_length', 'max_length']
+
+def gen_index_case(rng, names, field=None):
+    field = field or rng.choice(INDEX_FIELDS)
+    force = dict(k=rng.choice([0, 1, 2]), exc=rng.choice(['auto', 'trypsin_exception', 'None']), min_len=5, max_len=25,
+                 mw4=rng.choice([0, 300]) * 10000 + rng.randrange(0, 10000))
+    other = {}
+    if field == 'max_length':
+        force['max_len'] = rng.choice([25, 25, 30]); other['max_len'] = rng.choice([6, 8, 10, 13])
+        if force['k'] >= 1 and rng.random() < 0.5:
+            force['forms'] = ['misc', 'misc', 'plain', 'i2l', 'metless+i2l']
+    elif field == 'min_length':
+        other['min_len'] = rng.choice([9, 11, 14])
+    elif field == 'min_mw':
+        g = rng.choice([1000, 1300, 2000]) * 10000 + rng.randrange(0, 10000)
+        other['mw4'] = g; other['min_mw'] = g / 10000.0 + 0.00005
+    elif field == 'miscleavage':
+        force['k'] = rng.choice([1, 2]); other['k'] = rng.choice([0, force['k'] - 1])
+        force['forms'] = ['misc', 'misc', 'misc', 'metless+i2l', 'plain']
+    elif field == 'rule':
+        cands = [n for n in ('lysc', 'arg-c', 'lysn', 'asp-n', 'chymotrypsin high specificity', 'glutamyl endopeptidase') if n in names]
+        other['rule'] = rng.choice(cands or [n for n in names if n != 'trypsin'])
+        if force['exc'] == 'trypsin_exception':
+            force['exc'] = 'auto'          # auto resolves per rule (none for the other rule): still exactly one CLI field differs
+    else:
+        force['exc_motif'] = True
+        force['k'] = 0
+        if rng.random() < 0.6:
+            force['exc'] = rng.choice(['trypsin_exception', 'auto']); other['exc'] = 'None'
+            force['forms'] = ['excjoin', 'excjoin', 'excjoin+i2l', 'plain']
+        else:
+            force['exc'] = 'None'; other['exc'] = rng.choice(['trypsin_exception', 'auto'])
+            force['forms'] = ['excleft', 'excleft', 'plain']
+    c = gen_collision_case(rng, control=False, force=force)
+    own = c['runs'][0]
+    oth = copy.deepcopy(own); oth.update(other)
+    runs = [own, oth]
+    if rng.random() < 0.3:                 # a third pool, differing from the first in one other field
+        third = copy.deepcopy(own)
+        f2 = rng.choice([f for f in ('max_length', 'min_length', 'miscleavage') if f != field])
+        if f2 == 'max_length': third['max_len'] = own['max_len'] + rng.choice([1, 5])
+        elif f2 == 'min_length': third['min_len'] = own['min_len'] + rng.choice([1, 2])
+        else: third['k'] = own['k'] + 1
+        runs.append(third)
+    order = list(range(len(runs)))
+    rng.shuffle(order)
+    keys = ('rule', 'exc', 'k', 'min_mw', 'mw4', 'min_len', 'max_len')
+    c['runs'] = runs
+    c['index'] = dict(field=field, settings=[{k2: runs[i][k2] for k2 in keys} for i in order], order=order)
+    c['probe_all'] = True
+    c['tags'] = ['index']
+    return c
 
 def gen_run(rng, names, auto=None):
     rule = 'trypsin' if rng.random() < 0.65 else rng.choice(names)
@@ -867,6 +942,8 @@ def check_e2e(c, r):
         return [('harness', 'implementation worker raised %s: %s' % (r['__exc__'], r.get('msg', '')))], stats, []
     prots = world_proteins(c['world'])
     reqs, slots = [], []
+    for e in r.get('index_errors', []) or []:
+        stats['errors']['index:' + e] = stats['errors'].get('index:' + e, 0) + 1
     for i, (run, out) in enumerate(zip(c['runs'], r['runs'])):
         fastas, names = [], []
         for cmd in ('variant', 'novel', 'alt'):
@@ -912,7 +989,7 @@ def check_e2e(c, r):
                             break
         lim = [run['k'], run['mw4'], run['min_len'], run['max_len']]
         lim_out = [run['k'], run['mw4'] + 1, run['min_len'], run['max_len']]
-        if c.get('probe') and i == 0:
+        if c.get('probe') and (i == 0 or c.get('probe_all')):
             fastas.append(list(c['probe'])); names.append('probe')
         reqs.append(('c04_hygiene', [run['rule'], resolved_exc(run), lim, prots, fastas, lim_out]))
         slots.append((i, names, fastas))
@@ -940,9 +1017,12 @@ def eval_e2e(ctx, cases, tag='c04e'):
                 if cmd == 'probe':
                     # engineered peptides: are they canonical according to the C10 model's pool, and were they written?
                     written = {n: set(f) for n, f in zip(names, fastas) if n != 'probe'}
-                    stats['probe'] = [dict(cmd=pc, E=e, canonical=bool(fl[0]), in_limits=not any(fl[1:]),
-                                           written=e in written.get(pc, set()))
-                                      for pc, e, fl in zip(c['probe_cmds'], seqs, flags)]
+                    pr = [dict(cmd=pc, E=e, canonical=bool(fl[0]), in_limits=not any(fl[1:]),
+                               written=e in written.get(pc, set()))
+                          for pc, e, fl in zip(c['probe_cmds'], seqs, flags)]
+                    stats.setdefault('probes', {})[i] = pr
+                    if i == 0:
+                        stats['probe'] = pr
                     continue
                 for s, fl in zip(seqs, flags):
                     for j, b in enumerate(fl):
@@ -1058,11 +1138,31 @@ def run(ctx):
     n_col = 400 if ctx.quick else 5000
     for i in range(n_col):
         e2e.append(gen_collision_case(rng, control=(i % 4 == 3)))
+    n_idx = 120 if ctx.quick else 1500
+    for i in range(n_idx):
+        e2e.append(gen_index_case(rng, names, field=INDEX_FIELDS[i % len(INDEX_FIELDS)]))
     results = eval_e2e(ctx, e2e)
+    idx = {'cases': 0, 'by_field': {}, 'pools_per_index': {}, 'own_registered_first': 0, 'targets': 0,
+           'targets_canonical_for_own_settings': 0, 'targets_canonical_for_own_but_not_for_other_pool': {}}
+    for c, r, probs, stats, _ in results:
+        if not c.get('index'):
+            continue
+        idx['cases'] += 1
+        f = c['index']['field']
+        idx['by_field'][f] = idx['by_field'].get(f, 0) + 1
+        n = len(c['index']['settings'])
+        idx['pools_per_index'][n] = idx['pools_per_index'].get(n, 0) + 1
+        idx['own_registered_first'] += 1 if c['index'].get('order', [0])[0] == 0 else 0
+        p0, p1 = stats.get('probes', {}).get(0, []), stats.get('probes', {}).get(1, [])
+        for a, b in zip(p0, p1):
+            idx['targets'] += 1
+            idx['targets_canonical_for_own_settings'] += 1 if a['canonical'] else 0
+            if a['canonical'] and not b['canonical']:
+                idx['targets_canonical_for_own_but_not_for_other_pool'][f] = idx['targets_canonical_for_own_but_not_for_other_pool'].get(f, 0) + 1
     col = {'cases': 0, 'controls': 0, 'by_form': {}, 'by_layout': {}, 'targets': 0, 'targets_canonical_in_model_pool': 0,
            'control_targets': 0, 'control_targets_written_by_intended_caller': {}, 'control_targets_by_caller': {}}
     for c, r, probs, stats, _ in results:
-        if not c.get('collision'):
+        if not c.get('collision') or c.get('index'):
             continue
         cc = c['collision']
         col['controls' if cc['control'] else 'cases'] += 1
@@ -1113,8 +1213,9 @@ def run(ctx):
                                                         what, (' [corpus %s]' % c['corpus']) if c.get('corpus') else ''),
                                'replay_obj': {'kind': 'e2e', 'case': small, 'problems': [p[1] for p in probs][:10]},
                                'no_input': False})
-    dist['e2e'] = len(e2e) - n_col
+    dist['e2e'] = len(e2e) - n_col - n_idx
     dist['e2e/collision'] = n_col
+    dist['e2e/index'] = n_idx
     samples = []
     for c in (ops[len(ops) // 7], ops[len(ops) // 2]):
         samples.append({k: v for k, v in c.items() if k not in ('mass4', 'base')})
@@ -1133,9 +1234,11 @@ def run(ctx):
              'to I>L / L>I / K,R codons / paralog conversions; plus engineered collision worlds (duplicated genes / isoforms encoding '
              'identical or near-identical proteins with different cds_start_NF tags in either order, and third genes whose variant / '
              'novel-ORF / W>F peptide equals a canonical peptide in plain, Met-removed, I->L and miscleaved form; canonicity probed in '
-             'the C10 model pool, effectiveness measured on control worlds: see `collision`); non-trivial = at least one peptide was '
+             'the C10 model pool, effectiveness measured on control worlds: see `collision`); plus the same callers through --index-dir on '
+             'indexes holding 2-3 pools (generateIndex + updateIndex) that differ in exactly one cleavage field, each run judged '
+             'against the model pool of its own settings: see `index`; non-trivial = at least one peptide was '
              'written; distinct by full input',
-        samples=samples, distribution=dist, reach=reach, e2e=est, collision=col, disagreements=len(bad), violations=violations,
+        samples=samples, distribution=dist, reach=reach, e2e=est, collision=col, index=idx, disagreements=len(bad), violations=violations,
         assumptions=['table text is ASCII without CR (byte offsets = character offsets, universal-newline translation is the identity)',
                      'the iteration order of Python sets (labels within one FASTA header, records of a VariantPeptidePool) is not modelled: '
                      'headers are compared as sets of entries, pools as sets of records',
